@@ -10,10 +10,14 @@ CLAIMED = {
          "as C01"),
  "C03": ("§4 C03", "Both blocking receive loops (_DataReceiverImpl.receive, _BufferedReceiverImpl.receive) are proved against a ghost transport stream: pending bytes == old pending ++ everything the transport returned (loop invariant), a buffered outcome is returned without reading (drain first), the EOF latch mirrors the transport's end-of-stream and is never reset, after EOF ConnectionAbortedError is raised with no transport call and only an incomplete frame pending.",
          "abstract transport contract (recv_into returns 0 only at EOF, fails without delivering) is assumed; TCP client error mapping and the asynchronous twins are not yet under contract in this round (the async endpoints share the consumer contracts); composition over a call history is a written induction"),
+ "C04": ("§4 C04", "send_all (loop invariant WIRE == WIRE0 ++ data[:total_sent], variant), the default send_all_from_iterable, the sendmsg loop of SocketStreamTransport (conservation invariant WIRE ++ flat(buffers) == WIRE0 ++ flat(chunks), termination variant |flat(buffers)| + |buffers|), adjust_leftover_buffer (exactly the sent prefix dropped, no exhausted buffer left) and the blocking sender are proved for all partial-write patterns and empty chunks.",
+         "socket.send/sendmsg accept a prefix and make progress when the first offered buffer is non-empty, would-block has no effect (trusted stubs); _retry's callback protocol is applied as a higher-order contract; asyncio / TLS write paths are not yet under contract in this round"),
  "C05": ("§4 C05", "One-shot serialize/deserialize derived from the incremental interface is proved to return exactly one packet or exactly one DeserializeError (missing / extra / invalid) for every datagram; DatagramProtocol.make_datagram / build_packet_from_datagram apply serializer and converter exactly once and raise only DatagramProtocolParseError; concrete one-shot codecs (json, struct, pickle, base64, line) delegate as specified.",
          "stdlib codecs are trusted stubs (stubs/stdlib.py); datagram endpoints/transports (one recv/send per call) are not yet under contract; OS and asyncio queue preserve datagram boundaries (assumed)"),
  "C06": ("§4 C06", "Exception flow: for every deserialize / incremental_deserialize / buffered_incremental_deserialize under contract and for the protocol and consumer layers the obligation `exits subset-of declared parse errors` is discharged path by path against the real exception class lattice; every error postcondition carries the remainder and, where stated, strict progress.",
          "raise-sets of stdlib decoders are assumed contracts (stubs/stdlib.py: str(), json, struct, base64, pickle = any Exception); JSON raw framing, file-based and compressor framings are assumed/bounded; termination of the one-shot path is by construction (no loop)"),
+ "C11": ("§4 C11", "SelectorBaseTransport._retry is proved to keep a two-sided budget invariant (blocked time + remaining budget <= T, remaining budget >= T - elapsed), never to call select with a zero budget, to raise TimeoutError only after the whole budget elapsed and with a finite budget; send_all, the sendmsg loop and both receive loops carry the returned budget across iterations.",
+         "floats as extended reals (NaN excluded); select(w) blocks at most w and reports not-ready only after w; perf_counter non-decreasing; lock_with_timeout and the clients' lock waits are not yet under contract"),
  "C07": ("§4 C07", "Yield invariants bound the held bytes by limit + |sep| - 1 (copy path) and the buffer size by the limit (buffered path); acceptance clauses (first occurrence <= limit never raises).",
          "JSON raw / file-based framings are not under contract"),
 }
